@@ -82,11 +82,32 @@ impl File {
     #[verifier::external_body]
     pub fn create(path: &PathBuf) -> (r: vio::Result<File>)
         requires fs_create_permitted()
+        ensures r matches Ok(f) ==> f.contents() == Seq::<u8>::empty() && f.fresh()
+    { unimplemented!() }
+    /// the bytes this handle has put into the file since it was opened (ghost)
+    pub uninterp spec fn contents(&self) -> Seq<u8>;
+    /// the file is KNOWN to have held nothing when it was opened (created anew, or truncated): what the handle writes is
+    /// all the file holds.  false = not known (opened without truncate: an existing file keeps its old bytes)
+    pub uninterp spec fn fresh(&self) -> bool;
+    /// std::io::Write::write on a file: Ok(n) puts exactly the first n bytes of buf behind what is already there
+    #[verifier::external_body]
+    pub fn write(&mut self, buf: &[u8]) -> (r: vio::Result<usize>)
+        ensures
+            final(self).fresh() == old(self).fresh(),
+            r matches Ok(n) ==> n <= buf@.len() && final(self).contents() == old(self).contents() + buf@.subrange(0, n as int),
+            r is Err ==> final(self).contents() == old(self).contents(),
     { unimplemented!() }
     #[verifier::external_body]
-    pub fn write(&mut self, buf: &[u8]) -> (r: vio::Result<usize>) { unimplemented!() }
+    pub fn flush(&mut self) -> (r: vio::Result<()>)
+        ensures final(self).fresh() == old(self).fresh(), final(self).contents() == old(self).contents()
+    { unimplemented!() }
     #[verifier::external_body]
-    pub fn flush(&mut self) -> (r: vio::Result<()>) { unimplemented!() }
+    pub fn write_all(&mut self, buf: &[u8]) -> (r: vio::Result<()>)
+        ensures
+            final(self).fresh() == old(self).fresh(),
+            r is Ok ==> final(self).contents() == old(self).contents() + buf@,
+            r is Err ==> exists|k: int| 0 <= k <= buf@.len() && final(self).contents() == old(self).contents() + buf@.subrange(0, k),
+    { unimplemented!() }
 }
 impl VWrite for File {}
 /// std::fs::OpenOptions as a builder: opening with create / create_new / truncate may create or clobber the file, so it
@@ -114,9 +135,16 @@ impl OpenOptions {
     pub fn create_new(&mut self, b: bool) -> (r: &mut OpenOptions)
         ensures *r == (OpenOptions { create_new: b, ..*old(self) }), *final(r) == *final(self)
     { self.create_new = b; self }
+    /// std::os::unix::fs::OpenOptionsExt::mode: permission bits of a newly created file only
+    pub fn mode(&mut self, m: u32) -> (r: &mut OpenOptions)
+        ensures *r == *old(self), *final(r) == *final(self)
+    { self }
+    /// without truncate (or create_new) an existing file keeps its old bytes: the handle is not `fresh`; with append the
+    /// old bytes even precede what is written
     #[verifier::external_body]
     pub fn open<P>(&self, path: P) -> (r: vio::Result<File>)
         requires (self.create || self.create_new || self.truncate) ==> fs_create_permitted()
+        ensures r matches Ok(f) ==> f.contents() == Seq::<u8>::empty() && (f.fresh() == ((self.truncate && !self.append) || self.create_new))
     { unimplemented!() }
 }
 pub enum Stream { Stdin, Stdout, Stderr }
